@@ -13,7 +13,7 @@ Extraction "model.ml" Utf8.run Input.runa Input.ig0 Utf8.acc0 Utf8Spec.validb Ut
   Args.args_of Args.ai_next Args.ai_new Args.ai_into_args Args.from_tokens Args.help_request
   History.hist_new History.hist_push History.hist_older History.hist_newer
   Cli.cli_init Cli.raw_cmdset Cli.api_build Cli.api_process_byte Cli.api_write Cli.api_set_prompt
-  Handler.handler_raw Handler.prompt_of Handler.PROMPTS Handler.lit_of Writer.title_hops Writer.list_element_hops Cli.set_sk
+  Handler.handler_raw Handler.prompt_of Handler.PROMPTS Handler.lit_of Handler.raw_cmdset_rejecting Writer.title_hops Writer.list_element_hops Cli.set_sk
   QuoteSpec.tokens_fun QuoteSpec.render_quoted Framing.frame_write Framing.frame_enter Framing.hops_bytes
   Terminal.tinit Terminal.tfeed Terminal.view_ok Terminal.visible
   IdealEditor.ideal_step IdealEditor.ideal0 IdealEditor.ibytes
